@@ -33,11 +33,4 @@ HARNESSES = {
             'kani stub: alloc::fmt::format -> empty String (panic messages only); std::hash::RandomState::new -> fixed keys (HashMap::new reaches a futex otherwise)',
         ],
     },
-    'c02_cut_walk': {
-        'complete': False, 'timeout': 900, 'bound': 'one concrete shape: cut node -> parent -> grandparent (no parent), both with head nodes, one head with a head of its own, one node pointing into the chain',
-        'what': 'SolutionNode::set_no_backtracking() (unsafe raw-pointer walk) on real nodes: flags the node, every node up the parent_node links and the head node of each of these, no other node (head of a head, a node pointing into the chain), and writes no other field - the specification `walked` assumed by the Verus unit solver',
-        'need_stubs': [],
-        'oracle': 'c02_cut',
-        'assumptions': ['kani stub: std::hash::RandomState::new -> fixed keys (HashMap::new reaches a futex otherwise); goals of the nodes are Goal::Nil (the walk does not look at goals)'],
-    },
 }
